@@ -89,6 +89,19 @@ class Env:
 
 
 ENV = Env()
+# Trace-time switch: while False the wrapped samplers emit no callback at all (needed where JAX
+# cannot batch an IO effect, e.g. vmap of lax.cond).  Functions traced while disabled stay so.
+ENABLED = [True]
+
+
+class disabled:
+    def __enter__(self):
+        self._old = ENABLED[0]
+        ENABLED[0] = False
+
+    def __exit__(self, *a):
+        ENABLED[0] = self._old
+
 _installed = False
 _orig = None
 
@@ -150,6 +163,8 @@ def install():
 
         def sampler(key, *args, **kwargs):
             real = f(key, *args, **kwargs)
+            if not ENABLED[0]:
+                return real
             kw_names = tuple(sorted(k for k in kwargs if k != "sample_shape"))
             arg_leaves = [jnp.asarray(a) for a in args]
             # pytrees as positional args are flattened (rare)
